@@ -193,11 +193,12 @@ Definition size_int (s : string) : res pyval :=
   if isnumeric s then match int_of_string s with Some z => Ok (PInt z) | None => Raise ValueError end
   else Unsupported "size word is not a digit string".
 
+Definition colname_bad (name : string) : bool := String.eqb name "KEY" || String.eqb name ".".
 (* p_column *)
 Definition act_column (args : list pyval) : res pyval :=
   match args with
   | [PStr name; PDict ct] =>
-      if String.eqb name "KEY" || String.eqb name "." then Unsupported "column: KEY / dot as name"
+      if colname_bad name then Unsupported "column: KEY / dot as name"
       else match ct with
            | [("type", PStr ty)] => Ok (PDict [("name", PStr name); ("type", PStr ty); ("size", PNone)])
            | _ => Unsupported "column: c_type with properties"
@@ -291,10 +292,12 @@ Definition act_null (args : list pyval) : res pyval :=
 (* p_default for DEFAULT <one word> / DEFAULT NULL / DEFAULT 'string' *)
 Definition default_value (s : string) : pyval :=
   if isnumeric s then match int_of_string s with Some z => PInt z | None => PStr s end else PStr s.
+Definition default_bad (v : string) : bool :=
+  String.eqb v "FOR" || String.eqb v "for" || String.eqb v "DEFAULT" || String.eqb v "(" || String.eqb v ")".
 Definition act_default (args : list pyval) : res pyval :=
   match args with
   | [PStr d; PStr v] =>
-      if negb (String.eqb d "DEFAULT") || String.eqb v "FOR" || String.eqb v "for" || String.eqb v "DEFAULT" || String.eqb v "(" || String.eqb v ")"
+      if negb (String.eqb d "DEFAULT") || default_bad v
       then Unsupported "default form"
       else Ok (PDict [("default", default_value v)])
   | _ => Unsupported "default form"
@@ -316,6 +319,8 @@ Definition act_string (args : list pyval) : res pyval :=
 Definition act_pid (args : list pyval) : res pyval :=
   match args with [PStr s] => Ok (PList [PStr s]) | _ => Unsupported "pid form" end.
 
+Definition refaction_bad (act : string) : bool :=
+  String.eqb act "ON" || String.eqb act "DELETE" || String.eqb act "UPDATE" || String.eqb act "DEFERRABLE" || String.eqb act "(" || String.eqb act ")".
 (* p_ref *)
 Definition act_ref (args : list pyval) : res pyval :=
   match args with
@@ -333,7 +338,7 @@ Definition act_ref (args : list pyval) : res pyval :=
       | _ => Raise KeyError
       end
   | [PDict d; PStr "ON"; PStr what; PStr act] =>
-      if String.eqb act "ON" || String.eqb act "DELETE" || String.eqb act "UPDATE" || String.eqb act "DEFERRABLE" || String.eqb act "(" || String.eqb act ")"
+      if refaction_bad act
       then Unsupported "ref: action word is a keyword"
       else
       match dict_get d "references" with
